@@ -139,6 +139,9 @@ class NT(Sym):
                 raise AnalysisError(f"reshape to a non-integer size {s_!r}")
             grp, p = [], 1
             while k < len(elems) and (p < s_ or (s_ == 1 and not grp and elems[k].dim == 1)):
+                if s_ > 1 and elems[k].dim == 1:
+                    k += 1          # an axis of size one disappears in a target axis of size > 1
+                    continue
                 grp.append(elems[k])
                 p *= elems[k].dim
                 k += 1
